@@ -187,8 +187,18 @@ def _validate_union(datum, schema, named_schemas, parent_ns, raise_errors, optio
         else:
             return False
 
+    # A "-type" hint selects exactly the record branch of that name, as in the
+    # writers' branch search
+    hint = datum["-type"] if isinstance(datum, dict) and "-type" in datum else None
+
     errors = []
     for s in schema:
+        if hint is not None:
+            hinted = s
+            if extract_record_type(s) in named_schemas:
+                hinted = named_schemas[extract_record_type(s)]
+            if extract_record_type(hinted) != "record" or hinted["name"] != hint:
+                continue
         try:
             ret = _validate(
                 datum,
